@@ -30,6 +30,13 @@ Definition C04_case (ms : list (list smatch)) (ext : list value) (mem : list N)
    Bool.eqb (sem_rule q cond) verdict && forallb (probe_spec q) probes,
    0).
 
+(* the same condition on fragmented memory (scan_fragmented): no file size, no direct memory; the matches
+   carry the base of their region, and `at` / `in` / `@` speak of absolute addresses *)
+Definition C04_frag_case (ms : list (list smatch)) (ext : list value) (cond : expr) (verdict : bool) : bool * bool * N :=
+  let en := {| e_matches := Some ms; e_prev := []; e_ext := ext; e_filesize := None; e_mem := None |} in
+  let q := {| q_matches := ms; q_prev := []; q_ext := ext; q_filesize := None; q_mem := None |} in
+  (res_eqb Bool.eqb (eval_rule en cond) (Ok verdict), Bool.eqb (sem_rule q cond) verdict, 0).
+
 (* C06: the verdict observed in a configuration where the no-scan pass may run (`noscan_verdict`,
    with `chunks` = number of memory chunks scanned, 0 when the string scan was skipped) against the
    model of both passes, and against the reference configuration's verdict. *)
